@@ -4,7 +4,7 @@ import copy
 from ..engine import Outcome, Verdict, crash_verdicts, infra_problem, shrink_list
 
 ID = "C11"
-RULE = ("case = (thread program from a family with a generator-computed sequential specification -- mutex counters, lock pairs, bounded buffers, fork/join trees, join states, thread locals, timed waits with a wide margin, timed races where a foreign call that takes simulated time carries the clock past a deadline in the same scheduler call as the competing event, several waiters on one event with an empty run queue, callbacks -- slice-length tape, clock tape, "
+RULE = ("case = (thread program from a family with a generator-computed sequential specification -- mutex counters, lock pairs, bounded buffers, fork/join trees, join states, thread locals, timed waits with a wide margin (the waiting thread first goes through a drawn history of completed sleeps / timed-out lock, join and condition waits), timed races where a foreign call that takes simulated time carries the clock past a deadline in the same scheduler call as the competing event, several waiters on one event with an empty run queue, callbacks -- slice-length tape, clock tape, "
         "collection points). The real SRFI-18 scheduler and primitives run unmodified; the simulator decides the length of every time "
         "slice (1 instruction .. default quantum), the clock step of every tick and forward clock jumps. Checked at every scheduler "
         "call: queue shape/BACK pointer/duplicates/deadline order; deadlock detector (lost wake-up); after the run: output equals the "
